@@ -257,7 +257,10 @@ func ReadPatchString(s string) (Diff, error) {
 			diff = append(diff, e)
 		} else {
 			i := len(diff) - 1
-			if diff[i].Path.JsonNode().Equals(e.Path.JsonNode()) && !hasPatchContext(e) {
+			// A removal after an addition is not coalesced: RFC 6902 applies
+			// operations in sequence, so it removes what was just added.
+			removeAfterAdd := len(e.Remove) > 0 && len(diff[i].Add) > 0
+			if diff[i].Path.JsonNode().Equals(e.Path.JsonNode()) && !hasPatchContext(e) && !removeAfterAdd {
 				diff[i].Remove = append(diff[i].Remove, e.Remove...)
 				if isAppendPath(e.Path) {
 					// Appending keeps the order of the operations
